@@ -506,4 +506,36 @@ def flagsUnpack (order : List String) (r : FlagCls) (rows : List (List Nat)) : O
 def flagsOn (c : FlagCls) (v : Nat) : List String :=
   (c.fields.filter (fun f => v &&& f.2 ≠ 0)).map (·.1)
 
+/-! ## the modelled domain of the main theorem as decidable predicates (evaluated by the harness on every value list) -/
+
+/-- `Props.C05.EntryWF` as a Boolean function: every leaf has dtype `d` (scalars of flavour `np`), arrays carry as many
+elements as their shape says, no dict -/
+def entryWFB (np : Bool) (d : DT) : Entry → Bool
+  | .none => true
+  | .scal np' dt _ => decide (np' = np) && decide (dt = d)
+  | .arr dt sh data => decide (dt = d) && decide (data.length = prod sh)
+  | .list _ dt _ => decide (dt = d)
+  | .list2 _ dt _ => decide (dt = d)
+  | .dict _ => false
+
+/-- flavour of the first scalar (Python when there is none) -/
+def npOf (xs : List Entry) : Bool :=
+  match xs.find? isScal with
+  | some (.scal np _ _) => np
+  | _ => false
+
+/-- dtype of the first entry that has one (float64 when all are unset) -/
+def dtOf (xs : List Entry) : DT := (xs.findSome? entryDT).getD .f64
+
+/-- the (flavour, dtype) a value list is well-formed for; `none` = outside the modelled domain (mixed dtypes or scalar
+flavours, an array whose data do not fit its shape, a dict) -/
+def domainOf (xs : List Entry) : Option (Bool × DT) :=
+  if xs.all (entryWFB (npOf xs) (dtOf xs)) then some (npOf xs, dtOf xs) else Option.none
+
+/-- `Props.C05.NoSentinel` as a Boolean function: with a None present, no scalar is what the reader takes for None -/
+def noSentinelB (d : DT) (xs : List Entry) : Bool :=
+  !xs.any isNone || xs.all (fun e => match e with
+    | .scal _ _ v => !readIsNone d v
+    | _ => true)
+
 end ArmiVerif.Pack
